@@ -55,7 +55,7 @@ def main() -> int:
     obs = core.read_json(obs_p)
     if len(obs) != len(cases):
         raise core.MachineryFailure("runner returned %d observations for %d cases" % (len(obs), len(cases)))
-    violations, counters = ro.validate(ck, "Utf16Trace", None, obs, "V: rewritten tree matches Utf16(s) iff the original matches s", chunk=400 if ck.quick else 1500)
+    violations, counters = ro.validate(ck, "Utf16Trace", None, obs, "V: rewritten tree matches Utf16(s) iff the original matches s")
     oracle = [v for v in violations if v["invariant"].startswith("S_")]
     if oracle:
         o = obs[oracle[0]["n"]]
